@@ -61,6 +61,14 @@ func (sm *storedMessages) senders() []uint16 {
 	return res
 }
 
+// handover holds the messages of a topic that are being handed to the message handler
+// after the topic has started. As long as it exists, messages received for the topic
+// are appended to it instead of being forwarded directly, so that the messages of each
+// sender reach the message handler in the order of their arrival.
+type handover struct {
+	messages []*IncMessage
+}
+
 type Box struct {
 	// State
 	stopClock                   func()
@@ -70,6 +78,7 @@ type Box struct {
 	lock                        sync.RWMutex
 	pendingMessages             map[string]*storedMessages
 	startedSending              map[string]uint64
+	handovers                   map[string]*handover
 	totalInFlightTopicsBySender map[uint16]map[string]struct{}
 	//Config
 	MessageHandler
@@ -121,21 +130,9 @@ func (b *Box) HandleMessage(msg *IncMessage) {
 	}
 }
 
+// getOrCreateMessagesByTopic must be invoked while the lock of the box is held
 func (b *Box) getOrCreateMessagesByTopic(topic []byte) *storedMessages {
-	b.initialize()
-
-	b.lock.RLock()
 	messages, exists := b.pendingMessages[string(topic)]
-	b.lock.RUnlock()
-
-	if exists {
-		return messages
-	}
-
-	b.lock.Lock()
-	defer b.lock.Unlock()
-
-	messages, exists = b.pendingMessages[string(topic)]
 	if !exists {
 		messages = &storedMessages{messageCountPerSender: make(map[uint16]int), logger: b.Logger}
 	}
@@ -147,22 +144,31 @@ func (b *Box) getOrCreateMessagesByTopic(topic []byte) *storedMessages {
 func (b *Box) storeOrForward(msg *IncMessage) {
 	b.initialize()
 
-	if b.hasStartedSending(msg.Topic) {
+	// Finding out whether the topic has started, and buffering the message if it has not, is done
+	// under a single acquisition of the lock which Send() takes to start the topic and to detach
+	// its buffered messages. Else, a message that is received while the topic starts may be added
+	// to a buffer that has already been detached (and be lost), or be overtaken by later messages.
+	b.lock.Lock()
+
+	if h, beingHandedOver := b.handovers[string(msg.Topic)]; beingHandedOver {
+		h.messages = append(h.messages, msg)
+		b.lock.Unlock()
+		return
+	}
+
+	if _, started := b.startedSending[string(msg.Topic)]; started {
+		b.lock.Unlock()
 		b.MessageHandler.HandleMessage(msg)
 		return
 	}
 
-	var tooManyTopicsFromSender bool
+	defer b.lock.Unlock()
 
-	b.lock.RLock()
 	if activeTopicsFromSource, exists := b.totalInFlightTopicsBySender[msg.Source]; exists {
-		tooManyTopicsFromSender = len(activeTopicsFromSource) > b.MaxInFlightTopicsBySender
-	}
-	b.lock.RUnlock()
-
-	if tooManyTopicsFromSender {
-		b.Logger.Warnf("Received too many topics from %d (limit is %d)", msg.Source, b.MaxInFlightTopicsBySender)
-		return
+		if len(activeTopicsFromSource) > b.MaxInFlightTopicsBySender {
+			b.Logger.Warnf("Received too many topics from %d (limit is %d)", msg.Source, b.MaxInFlightTopicsBySender)
+			return
+		}
 	}
 
 	b.markTopicForSender(msg)
@@ -171,10 +177,8 @@ func (b *Box) storeOrForward(msg *IncMessage) {
 	messages.add(msg)
 }
 
+// markTopicForSender must be invoked while the lock of the box is held
 func (b *Box) markTopicForSender(msg *IncMessage) {
-	b.lock.Lock()
-	defer b.lock.Unlock()
-
 	if _, exists := b.totalInFlightTopicsBySender[msg.Source]; !exists {
 		b.totalInFlightTopicsBySender[msg.Source] = make(map[string]struct{})
 	}
@@ -185,6 +189,7 @@ func (b *Box) initialize() {
 	b.init.Do(func() {
 		b.pendingMessages = make(map[string]*storedMessages)
 		b.startedSending = make(map[string]uint64)
+		b.handovers = make(map[string]*handover)
 		b.totalInFlightTopicsBySender = make(map[uint16]map[string]struct{})
 		b.startClock()
 	})
@@ -274,26 +279,49 @@ func (b *Box) Send(msgType uint8, topic []byte, msg []byte, to ...UniversalID) {
 	b.lock.Lock()
 	b.startedSending[string(topic)] = atomic.LoadUint64(&b.currentGCEpochNum)
 	msgs := b.pendingMessages[string(topic)]
-	var messages []*IncMessage
+	var h *handover
 	if msgs != nil {
 		msgs.lock.RLock()
-		messages = msgs.messages
+		messages := msgs.messages
 		msgs.lock.RUnlock()
 		// The topic has started, hence it no longer counts as an in-flight topic of its senders
 		for _, sender := range msgs.senders() {
 			delete(b.totalInFlightTopicsBySender[sender], string(topic))
 		}
-	}
 
-	defer func() {
-		for _, msg := range messages {
-			b.HandleMessage(msg)
+		if ongoing, exists := b.handovers[string(topic)]; exists {
+			ongoing.messages = append(ongoing.messages, messages...)
+		} else if len(messages) > 0 {
+			h = &handover{messages: messages}
+			b.handovers[string(topic)] = h
 		}
-	}()
+	}
 
 	delete(b.pendingMessages, string(topic))
 
 	b.lock.Unlock()
 
 	b.ForwardSend(msgType, topic, msg, to...)
+
+	if h != nil {
+		b.handOver(string(topic), h)
+	}
+}
+
+// handOver passes the buffered messages of a topic that has started to the message handler,
+// followed by the messages that were received for the topic in the meantime.
+func (b *Box) handOver(topic string, h *handover) {
+	for {
+		b.lock.Lock()
+		if len(h.messages) == 0 {
+			delete(b.handovers, topic)
+			b.lock.Unlock()
+			return
+		}
+		msg := h.messages[0]
+		h.messages = h.messages[1:]
+		b.lock.Unlock()
+
+		b.MessageHandler.HandleMessage(msg)
+	}
 }
